@@ -103,7 +103,8 @@ const c17Rule = "case = 1..8 settings from the 45-entry table (yaml key, flag na
 	"the filter option parses to [a,b,c]; non-trivial = some setting has >= 2 sources; distinct by hash"
 
 var c17Strings = []string{"x", "vflow.test", "/tmp/some file.log", "a: b", "#not a comment", "yes", "123", "0x10", "null", "~", "with \"quote\"", "back\\slash",
-	"ünï", "50%", "127.0.0.1", "::1", "[::]:8081", "kafka.segmentio", "rawSocket", "-dash", "tab\tsep", "{curly}", "[1,2]", "'single'", "a,b", "  padded  "}
+	"ünï", "50%", "127.0.0.1", "::1", "[::]:8081", "kafka.segmentio", "rawSocket", "-dash", "tab\tsep", "{curly}", "[1,2]", "'single'", "a,b", "  padded  ",
+	"a=b", "k=v=w", "=lead", "trail=", "/var/lib/vflow/site=ams1/tpl.cache", "--x=y", "a b=c d", "$HOME", "${X}", "%s", "a;b", "a|b", "x\ny"}
 
 func genC17(t *rapid.T) c17Case {
 	var c c17Case
